@@ -133,7 +133,7 @@ theorem interpKVs_jstep (rt : Registry) (n : Nat) (ih : JsonStep rt n) :
   all_goals
     simp only [Ast.discKVs, Bool.and_eq_true] at he
     have hl := ih.j_interp _ _ _ _ _ he.1 hd (by assumption)
-    exact ih.j_interpKVs _ _ _ _ _ _ he.2 hd (insertKV_json _ _ _ hl hacc) h
+    exact ih.j_interpKVs _ _ _ _ _ _ he.2 hd (insertKV_json_ij _ _ _ hl hacc) h
 
 theorem interp_expref_eq (rt : Registry) (n : Nat) (d : Val) (o : Nat) (body : Ast) (off : Nat) (v : Val)
     (off' : Nat) (h : interp rt n d (.expref o body) off = .ok (v, off')) : v = .expref body := by
@@ -237,7 +237,7 @@ theorem interp_jstep (rt : Registry) (hrt : RegOK rt) (n : Nat) (ih : JsonStep r
   | identity o => jprep h ha; exact hd
   | literal o w => jprep h ha; exact ha
   | expref o a => simp [Ast.Disciplined] at ha
-  | index o i => jprep h ha; exact index_json _ _ (by simpa using hd)
+  | index o i => jprep h ha; exact index_json_ij _ _ (by simpa using hd)
   | slice o st sp step =>
     jprep h ha
     rw [isJson_arr] at hd ⊢
